@@ -193,6 +193,7 @@ class World:
 
     # ------------------------------------------------------------ plumbing
     def viol(self, props, kind, detail, **data):
+        data.setdefault("flags_used", sorted(self.flags_used))  # context every mechanism classifier may need
         v = {"props": list(props), "kind": kind, "detail": str(detail)[:600], "step": len(self.steps), "data": data}
         self.violations.append(v)
         self.stats["viol:" + kind] += 1
@@ -1118,7 +1119,8 @@ class World:
                 if k in members:
                     have.add(sname)
             if ("\\Seen" in have) != (k in seqs.get("Seen", set())) and "Seen" in seqs:
-                self.viol(["C04", "C13"], "seen-unseen-not-complementary-on-disk", f"{name} key {k}: unseen={k in seqs.get('unseen', set())} Seen={k in seqs.get('Seen', set())} {where}")
+                self.viol(["C04", "C13"], "seen-unseen-not-complementary-on-disk", f"{name} key {k}: unseen={k in seqs.get('unseen', set())} Seen={k in seqs.get('Seen', set())} {where}",
+                          flags_used=sorted(self.flags_used))
             if have != want:
                 self.viol(["C13", "C04"], "mh-sequences-differ-from-flags", f"{name} key {k} ({m.cid}): .mh_sequences says {sorted(have)}, sessions see {sorted(want)} {where}",
                           extra=sorted(have - want), missing=sorted(want - have), flags_used=sorted(self.flags_used))
